@@ -1,8 +1,8 @@
 package main
 
 import (
-	"go/constant"
 	"fmt"
+	"go/constant"
 	"go/types"
 	"strings"
 
@@ -896,6 +896,10 @@ func (e *Enc) callSiteClauses(st *State, c *ssa.CallCommon, key string, args []V
 		// the callee's arguments are available as arg0, arg1, ...
 		for j, a := range args {
 			n := fmt.Sprintf("arg%d", j)
+			sc.vars[n] = a
+			sc.vtypes[n] = argTypes[j]
+			// callargJ: the same, under a name that cannot clash with a parameter of the function under verification
+			n = fmt.Sprintf("callarg%d", j)
 			sc.vars[n] = a
 			sc.vtypes[n] = argTypes[j]
 		}
